@@ -403,6 +403,12 @@ pub fn table(ctx: &Ctx) -> Report {
         // one timeout for the whole establishment, not one per step: the StartTLS answer takes 1.4 s of the 2 s, the
         // handshake is never answered (a timeout that restarted with the handshake would fire after 3.4 s)
         cases.push(Case { url: format!("ldap://127.0.0.1:{}", pslow), starttls: true, timeout_ms: Some(2000), stream: Stream::None, expect: Expect::ContactVia("tcp4:slowtls".into()), max_ms: Some(STRICT + 3_100), note: "StartTLS answered late, handshake never: the connection timeout bounds the sum" });
+        if have389 {
+            // StartTLS is LDAP on the LDAP port: the default stays 389 (the listener closes, so setup fails; what counts is
+            // which endpoint was dialled)
+            cases.push(Case { url: "ldap://127.0.0.1".into(), starttls: true, timeout_ms: Some(3000), stream: Stream::None, expect: Expect::ContactVia("tcp4:389".into()), max_ms: None, note: "default port with StartTLS is 389" });
+            cases.push(Case { url: "ldap:///".into(), starttls: true, timeout_ms: Some(3000), stream: Stream::None, expect: Expect::ContactVia("tcp?:389".into()), max_ms: None, note: "default port with StartTLS is 389, missing host" });
+        }
         // the smallest timeouts are timeouts too: zero does not mean "none"
         for t in [0u64, 1] {
             cases.push(Case { url: format!("ldap://127.0.0.1:{}", ps), starttls: true, timeout_ms: Some(t), stream: Stream::None, expect: Expect::Err(vec!["Timeout"]), max_ms: Some(6_000), note: "StartTLS against a server that never answers, zero / 1 ms connection timeout" });
